@@ -17,14 +17,14 @@ Theorem c13_binop_passthrough :
   forall (arr nformat:Type)
          (np_bin : npop -> arr -> arr -> res arr) (np_divmod : arr -> arr -> res (arr * arr))
          (np_un : npop -> arr -> res arr) (np_item : arr -> arr)
-         (dtype_to_str : arr -> res nformat) (np_cast : nformat -> arr -> res arr),
+         (dtype_to_str : arr -> res nformat) (np_cast : nformat -> arr -> res arr) (np_empty : nformat -> arr),
     (forall o a b, is_cmp o = true -> np_bin (npop_of (mirror o)) b a = np_bin (npop_of o) a b) ->
     (forall r nf, dtype_to_str r = Ok nf -> np_cast nf r = Ok r) ->
     forall T, tables_ok T = true ->
     forall (h:heap arr nformat) lhs rhs o store kl kr,
       kind_of arr nformat h lhs = Ok kl -> kind_of arr nformat h rhs = Ok kr -> in_scope kl o kr = true ->
-      run_binop arr nformat np_bin np_divmod np_un np_item dtype_to_str np_cast T h lhs o rhs store
-      = spec_binop arr nformat np_bin np_divmod dtype_to_str h lhs o rhs store.
+      run_binop arr nformat np_bin np_divmod np_un np_item dtype_to_str np_cast np_empty T h lhs o rhs store
+      = spec_binop arr nformat np_bin np_divmod dtype_to_str np_empty h lhs o rhs store.
 Proof. exact binop_passthrough. Qed.
 Print Assumptions c13_binop_passthrough.
 
@@ -33,9 +33,10 @@ Print Assumptions c13_binop_passthrough.
 Example c13_binop_example :
   (forall o a b, is_cmp o = true -> toy_bin (npop_of (mirror o)) b a = toy_bin (npop_of o) a b) /\
   (forall r nf, toy_dtype r = Ok nf -> toy_cast nf r = Ok r) /\
-  run_binop Z unit toy_bin toy_divmod toy_un (fun a => a) toy_dtype toy_cast repo_tables
-            [mkfield Z unit TimestampH5 tt 7] (VNd 3) Lt (VField 0) true
-  = Ok (mkout Z unit [mkfield Z unit TimestampH5 tt 7; mkfield Z unit NumericMem tt 1; mkfield Z unit NumericH5 tt 1]
+  run_binop Z unit toy_bin toy_divmod toy_un (fun a => a) toy_dtype toy_cast (fun _ => 0) repo_tables
+            [mkfield Z unit TimestampH5 tt (Some 7)] (VNd 3) Lt (VField 0) true
+  = Ok (mkout Z unit [mkfield Z unit TimestampH5 tt (Some 7); mkfield Z unit NumericMem tt (Some 1);
+                      mkfield Z unit NumericH5 tt (Some 1)]
               [VField 1%nat] [VField 2%nat]).
 Proof. split; [exact toy_cmp_mirror|split; [exact toy_cast_id|vm_compute; reflexivity]]. Qed.
 
@@ -44,14 +45,14 @@ Theorem c13_unop_passthrough :
   forall (arr nformat:Type)
          (np_bin : npop -> arr -> arr -> res arr) (np_divmod : arr -> arr -> res (arr * arr))
          (np_un : npop -> arr -> res arr) (np_item : arr -> arr)
-         (dtype_to_str : arr -> res nformat) (np_cast : nformat -> arr -> res arr),
+         (dtype_to_str : arr -> res nformat) (np_cast : nformat -> arr -> res arr) (np_empty : nformat -> arr),
     (forall r nf, dtype_to_str r = Ok nf -> np_cast nf r = Ok r) ->
     forall T, tables_ok T = true ->
     forall (h:heap arr nformat) id fo u store,
       nth_error h id = Some fo -> supported_u (fo_cls _ _ fo) u = true ->
-      run_unop arr nformat np_bin np_divmod np_un np_item dtype_to_str np_cast T h (VField id) u store
-      = spec_unop arr nformat np_un dtype_to_str h (VField id) u store.
-Proof. intros arr nformat np_bin np_divmod np_un np_item d2s np_cast H. exact (unop_passthrough arr nformat np_bin np_divmod np_un np_item d2s np_cast H). Qed.
+      run_unop arr nformat np_bin np_divmod np_un np_item dtype_to_str np_cast np_empty T h (VField id) u store
+      = spec_unop arr nformat np_un dtype_to_str np_empty h (VField id) u store.
+Proof. intros arr nformat np_bin np_divmod np_un np_item d2s np_cast np_empty H. exact (unop_passthrough arr nformat np_bin np_divmod np_un np_item d2s np_cast np_empty H). Qed.
 Print Assumptions c13_unop_passthrough.
 
 (* FULL (finite, by computation).  The operator table of the tree (as read into Model/Dispatch.v) is
@@ -98,9 +99,9 @@ Theorem c13_results_are_numpys :
     forall i r, nth_error rs i = Some r ->
       exists nf, dtype_to_str r = Ok nf /\
         nth_error (o_results _ _ out) i = Some (VField (length h + i)) /\
-        nth_error (o_heap _ _ out) (length h + i) = Some (mkfield arr nformat NumericMem nf r) /\
+        nth_error (o_heap _ _ out) (length h + i) = Some (mkfield arr nformat NumericMem nf (Some r)) /\
         (store = true ->
            nth_error (o_stored _ _ out) i = Some (VField (length h + length rs + i)) /\
-           nth_error (o_heap _ _ out) (length h + length rs + i) = Some (mkfield arr nformat NumericH5 nf r)).
+           nth_error (o_heap _ _ out) (length h + length rs + i) = Some (mkfield arr nformat NumericH5 nf (Some r))).
 Proof. exact spec_results_are_numpys. Qed.
 Print Assumptions c13_results_are_numpys.
